@@ -107,12 +107,103 @@ CONSTRUCTS = [
     "{n} = " + "(" * 300 + "1" + ")" * 300 + "\n",
     "{n} = " + "[" * 120 + "]" * 120 + "\n",
     "@dataclass(frozen=True)\nclass {N}:\n    a: int = field(default=1)\n    b: ClassVar[int] = 2\n    c: InitVar[str] = ''\n",
+    # string annotations / type comments that ast.parse refuses with something other than SyntaxError (1297c95)
+    "def {n}(a: \"\\ud800\", b: '\\x00' = 1) -> '\\udfff': pass\n",
+    "{n}: '" + "-" * 10000 + "1' = 1\n",
+    "{n} = 1  # type: " + "-" * 10000 + "1\n",
+    "{N}: \"" + " | ".join(["int"] * 5000) + "\" = 1\n",
+    "class {N}:\n    @property\n    def p(self) -> \"\\ud800\": ...\n    @property\n    def q(self) -> '" + "-" * 10000 + "1': ...\n",
+    "from typing import TypeAlias\n{N}: TypeAlias = \"\\ud800\"\n{N}2: TypeAlias = '" + "(" * 300 + "'\n",
+    "import attr\n@attr.s\nclass {N}:\n    a = attr.ib(type=\"\\ud800\")\n    b = attr.ib(type='" + "-" * 10000 + "1')\n",
+    # integer literals beyond the int -> str conversion limit (4300 digits), wherever an expression is turned into text
+    "class {N}(f(0x" + "f" * 4000 + ")): pass\n",
+    "class {N}(Generic[0x" + "f" * 4000 + "], metaclass=M(0x" + "f" * 4000 + ")): pass\n",
+    "@d(0x" + "f" * 4000 + ")\ndef {n}(a=0x" + "f" * 4000 + ", *, b: Literal[0x" + "f" * 4000 + "] = 0o" + "7" * 5000 + "): pass\n",
+    "{N} = 0x" + "f" * 4000 + "\n{n}: Literal[0b" + "1" * 16000 + "] = " + "9" * 4300 + "\n__all__ = [0x" + "f" * 4000 + "]\n",
+    # names that make a page file name longer than the 255 bytes a file system allows
+    "class " + "K" * 250 + ":\n    'doc'\n    def m(self): pass\n",
+    "".join("    " * i + "class Level%02dOfTheNesting:\n" % i for i in range(14)) + "    " * 14 + "'doc'\n",
+    "def " + "f" * 300 + "(" + "a" * 300 + "): pass\n" + "V" * 300 + " = 1\n'doc'\n",
 ]
 
+
+def deep_source(rng: random.Random, n: Optional[int] = None) -> str:
+    """legal code that is nested a few hundred levels deep at ONE place: the analysis walks and the colouriser are
+    recursive, about three Python frames per level, so everything interesting happens around 300 - 340 operands
+    (the exact number depends on where the expression sits); sizes are drawn mostly from that band"""
+    if n is None:
+        n = rng.choice([rng.randint(290, 345)] * 6 + [rng.randint(100, 290), rng.randint(345, 990), rng.randint(1000, 3000)])
+    plus = " + ".join(["1"] * n)
+    bor = " | ".join(["int"] * n)
+    attr = "a" + ".b" * n
+    cat = " + ".join(["'a'"] * n)
+    shapes = [
+        "TOTAL = %s\n'doc'\n" % plus,
+        "X = %s\n" % attr,
+        "X = %s\n" % cat,
+        "x: %s = 1\n" % bor,
+        "def f(a: %s): pass\n" % bor,
+        "def f(a) -> %s:\n    '''doc\n\n    @param a: x\n    '''\n" % bor,
+        "def f(a=%s, *, b=%s): pass\n" % (plus, attr),
+        "@%s\ndef f(): pass\n" % attr,
+        "@d(%s)\ndef f(): pass\n@d(%s)\nclass C: pass\n" % (plus, plus),
+        "class C(%s): pass\n" % attr,
+        "class C(d(%s)): pass\n" % plus,
+        "class C:\n    X = %s\n    def f(self, a=%s) -> %s: pass\n" % (plus, plus, bor),
+        "class C:\n    def __init__(self):\n        self.x = %s\n        self.y: %s = 1\n" % (plus, bor),
+        "def f(x):\n    if x == 0:\n        return 0\n" + "".join("    elif x == %d:\n        return %d\n" % (i, i) for i in range(1, n)),
+        "import sys\nif sys.a == 0:\n    x0 = 0\n" + "".join("elif sys.a == %d:\n    x%d = %d\n" % (i, i, i) for i in range(1, n)),
+        "import re\nR = re.compile('%s')\n" % ("(" * n + ")" * n),
+        "import re\nR = re.compile('%s')\n" % ("(a|" * n + "b" + ")" * n),
+        "X = %s1%s\nY = %s%s\n" % ("(" * (n // 4), ")" * (n // 4), "[" * (n // 4), "]" * (n // 4)),
+        "X = %s1%s\n" % ("f(" * (n // 4), ")" * (n // 4)),
+        "x: %sint%s = 1\n" % ("List[" * (n // 4), "]" * (n // 4)),
+        "X = %s\n" % " if a else ".join(["1"] * (n // 2)),
+        "X = not %s1\nY = %s1\n" % ("not " * (n // 2), "-" * (n // 2)),
+        "X = %s\n" % " and ".join("(a%d or b)" % i for i in range(n)),
+        "X = f'%s'\n" % ("{a!r:>{w}}" * (n // 2)),
+        "X = " + "lambda: " * (n // 4) + "1\n",
+        "X = [" + "".join("[x for x in " for _ in range(n // 8)) + "y" + "]" * (n // 8) + "]\n",
+    ]
+    return rng.choice(shapes)
+
+
+def import_chain(rng: random.Random, root: str, n: Optional[int] = None) -> Dict[str, str]:
+    """modules that import one another in a chain: each is analysed on demand INSIDE the analysis of the previous one"""
+    if n is None:
+        n = rng.choice([rng.randint(95, 130)] * 3 + [rng.randint(20, 95), rng.randint(130, 260)])
+    form = rng.randrange(3)
+    body = rng.choice(["", "def g(a: int = 1, *b: str, **c) -> 'List[int]':\n    '''doc'''\n",
+                       "class K(Base):\n    '''doc'''\n    x: int = 1\n    def m(self, a=(1, 2)) -> None: pass\n"])
+    files = {}
+    for i in range(n):
+        imp = ["from {r}.ch{i:03d} import f\n", "from .ch{i:03d} import *\n", "from {r}.ch{i:03d} import f as f\n__all__ = ['f']\n"][form]
+        files["%s/ch%03d.py" % (root, i)] = imp.format(r=root, i=i + 1) + body
+    files["%s/ch%03d.py" % (root, n)] = "def f(a: int = 1, *b: str, **c) -> 'List[int]':\n    '''doc'''\n" + body
+    return files
+
+
+# module / package NAMES are part of a tree: bytes that are not UTF-8 (surrogate-escaped here), control characters,
+# characters that mean something in a URL or in HTML, names of generated pages, names at the file system's length limit
+ODD_NAMES = ["caf\udce9", "\udcff\udcfe", "a\nb", "a\rb", "a b", "a'b", 'a"b', "a<b>", "a&b", "a%41", "a#b", "a?b", "-x", "a.b", "a..b", ".hidden",
+             "\u00e9", "a\tb", "a\\b", "a:b", "a*b", "class", "None", "1", " ", "a\x01b", "a\x7fb", "\u202e", "a;b", "a`b", "a{b}", "__init__.x",
+             "index", "a\u2028b", "a\x0cb", "a\x85b", "m" * 249, "\u00e9" * 120, "A" * 128 + "b" * 121, "\U0001f600"]
+ODD_BODY = "class K:\n    'doc'\n    def m(self): pass\nX = 1\n'''doc'''\ndef f(): pass\n"
+
+_T_NS = 'xmlns:t=\\"http://twistedmatrix.com/ns/twisted.web.template/0.1\\"'
+_T_RENDER = '<span ' + _T_NS + ' t:render=\\"nosuch\\">x</span>'
+_T_SLOT = '<t:slot ' + _T_NS + ' name=\\"nosuch\\"/>'
 HOSTILE = [
     "\\x00", "\\x01\\x02\\x1f", "\\x7f\\x80\\x9f", "\\ufffe\\uffff", "\\U0010ffff", "<script>&amp;]]>-->", "%s%(x)s{}{0}",
     "\\N{ZERO WIDTH JOINER}\\u202e", "L{", "}}}{{{", "`unclosed", "*emph", "|sub", ".. bogus::", "::", ">>> x\\n... ", "\\r\\n\\r",
     "@param:", ":param", "Args:\\n  x", "-----\\n", "\\t\\t\\x0b\\x0c", "a" * 3000, "\\\\", "'''", "\\'\\\"",
+    # markup that smuggles a twisted.web.template directive into the page (an unknown renderer / slot aborts the flattening)
+    "M{\\\\text{" + _T_RENDER + "}}", "M{\\\\text{" + _T_SLOT + "}}", ":math:`\\\\text{" + _T_RENDER + "}`", _T_RENDER, _T_SLOT,
+    "\\n.. math::\\n\\n   \\\\text{" + _T_SLOT + "}\\n", "\\n.. raw:: html\\n\\n   " + _T_RENDER + "\\n", "C{" + _T_RENDER + "}", "`" + _T_SLOT + "`",
+    "<t:transparent " + _T_NS + " t:render=\\\"x\\\"/>", "<t:attr name=\\\"x\\\">y</t:attr>",
+    # one token many times (type specifications of numpy / google docstrings are tokenised by regular expressions)
+    "\\nParameters\\n----------\\nx : " + "`a <" * 250 + "\\n    d\\n", "\\nArgs:\\n    x (" + "`a <" * 250 + "): d\\n", "\\nArgs:\\n    x " + "(" * 300 + ": d\\n",
+    "\\nReturns\\n-------\\n" + "`a <" * 250 + "\\n    d\\n", "L{" * 300, "`a`_ " * 200, "(" * 400, "[" * 400 + "]" * 400, "C{" * 150 + "}" * 150, "*a " * 300, "|a" * 300,
 ]
 
 
@@ -225,7 +316,7 @@ def mutate(src: str, rng: random.Random) -> str:
 
 def make_tree(rng: random.Random) -> Dict[str, Any]:
     """{files: {rel: bytes/str}, roots: [...], kind, bad: [rel paths that do not parse]}"""
-    kind = rng.choice(["catalogue", "catalogue", "mutation", "mutation", "hostile", "mixed"])
+    kind = rng.choice(["catalogue", "catalogue", "mutation", "mutation", "hostile", "mixed", "deep"])
     files: Dict[str, str] = {"pkg/__init__.py": "'''pkg'''\n"}
     nconstructs = 0
     if kind in ("catalogue", "mixed"):
@@ -241,6 +332,14 @@ def make_tree(rng: random.Random) -> Dict[str, Any]:
         files["pkg/good.py"] = "def ok():\n    '''fine'''\nclass Fine:\n    def m(self): pass\n"
     if kind in ("hostile", "mixed"):
         files["pkg/h.py"] = hostile_module(rng)
+    if kind == "deep":
+        # deeply nested legal code (recursive walks), or a long chain of modules that import one another
+        if rng.random() < 0.8:
+            for i in range(rng.randint(1, 3)):
+                files["pkg/d%d.py" % i] = deep_source(rng)
+        else:
+            files.update(import_chain(rng, "pkg"))
+        files["pkg/good.py"] = "def ok():\n    '''fine'''\nclass Fine:\n    def m(self): pass\n"
     if rng.random() < 0.2:
         files["pkg/sub/__init__.py"] = "from .. import *\nfrom ..good import ok\n__all__ = ['ok']\n"
         files["pkg/sub/deep.py"] = catalogue_module(rng)[0]
@@ -268,6 +367,47 @@ def make_tree(rng: random.Random) -> Dict[str, Any]:
         files["pkg/impl/tools/zz/__init__.py"] = "from ..saw import Saw\nclass Fine(Saw):\n    pass\n"
         files["pkg/__init__.py"] = rng.choice(["from pkg.impl import tools\n__all__ = ['tools']\n",
                                                "from .impl import tools as kit\n__all__ = ['kit']\n"])
+    if root == "pkg" and rng.random() < 0.05:
+        # a module assigns the __doc__ of a module of the tree that has not been analysed yet (81bb177)
+        tgt = rng.choice(["zdoc", "adoc", "sub.zdoc"])
+        files["pkg/" + tgt.replace(".", "/") + ".py"] = rng.choice(["def helper(): ...\n", "'own docstring'\nX = 1\n", "import pkg.massign\n"])
+        if tgt.startswith("sub.") and "pkg/sub/__init__.py" not in files:
+            files["pkg/sub/__init__.py"] = ""
+        files["pkg/massign.py"] = rng.choice(["import pkg.%s\npkg.%s.__doc__ = 'Documentation provided from outside.'\n" % (tgt, tgt),
+                                              "from pkg import %s as t\nt.__doc__ = 'x'\nt.__doc__ = 'y'\n" % tgt.split(".")[0],
+                                              "import pkg.%s as t\nt.__doc__ = 'x'\nimport pkg\npkg.__doc__ = 'z'\n" % tgt])
+    if root == "pkg" and rng.random() < 0.05:
+        # a class that a re-export moves WHILE its body is visited (the body imports the module that re-exports it),
+        # with definitions of the same name before and after the import (747aa07)
+        deco = rng.choice(["@overload\n    ", "@overload\n    ", "", "@property\n    "])
+        files["pkg/_shapes.py"] = ("from typing import overload\nclass Shape:\n    %sdef scale(self, factor: int) -> 'Shape': ...\n    "
+                                   "%s\n    %sdef scale(self, factor: float) -> 'Shape': ...\n    def scale(self, factor): return self\n"
+                                   "    class Inner:\n        def m(self): pass\n    x: int = 1\n"
+                                   % (deco, rng.choice(["from pkg.api import describe", "import pkg.api", "from .api import *"]), deco))
+        files["pkg/api.py"] = "from pkg._shapes import Shape\n__all__ = ['Shape', 'describe']\ndef describe(obj): ...\n"
+    if rng.random() < 0.06:
+        # module / package names that are unusual as file names
+        nm = rng.choice(ODD_NAMES)
+        if rng.random() < 0.7:
+            files["%s/%s.py" % (root, nm)] = ODD_BODY
+        else:
+            files["%s/%s/__init__.py" % (root, nm)] = ODD_BODY
+            files["%s/%s/inner.py" % (root, nm)] = "def f(): pass\n"
+    if rng.random() < 0.05:
+        # something that is not a readable regular file where a source file is expected
+        what = rng.randrange(5)
+        if what == 0:
+            files[root + "/dsub/__init__.py"] = "#DIR"
+            files[root + "/dsub/m.py"] = "x = 1\n"
+        elif what == 1:
+            files[root + "/loop.py"] = "#SYMLINK:loop.py"
+        elif what == 2:
+            files[root + "/dangling.py"] = "#SYMLINK:nosuch.py"
+        elif what == 3:
+            files[root + "/unreadable.py"] = "#MODE000:x = 1\n"
+        else:
+            files[root + "/lsub/__init__.py"] = "#SYMLINK:__init__.py"
+            files[root + "/lsub/m.py"] = "x = 1\n"
     extra_roots: List[str] = []
     if root == "pkg" and not prepend and rng.random() < 0.08:
         # a second root: a top-level module that the package re-exports (used to abort the run)
@@ -287,7 +427,95 @@ class _Timeout(Exception):
 
 
 def _alarm(signum, frame):
-    raise _Timeout()
+    # where the run was when the alarm went off: the innermost pydoctor frame (a hang is reported with its place)
+    at = ""
+    f = frame
+    while f is not None:
+        fn = f.f_code.co_filename
+        if "/pydoctor/" in fn and "/verif/" not in fn:
+            at = "%s.%s" % (Path(fn).stem, f.f_code.co_name)
+            break
+        f = f.f_back
+    raise _Timeout(at)
+
+
+# ---- growth stream ("never ... a hang"): one token repeated k, 2k, 4k times at one place of a docstring ------------------
+# A run that the 60 s alarm interrupts is a hang by decision.  A place whose cost grows with the CUBE of the input
+# length is a hang too (a docstring of a few KB takes minutes) although small instances return: it is decided by the
+# measured CPU time (process_time, so that a loaded machine does not matter) of the same tree at three sizes.
+GROWTH_TOKENS = ["`a <", "(", "`", "a <", ":", "*", "[", "L{", "`a`_ ", "|a", "\\\\", " ,", "a, ", ":class:`", "<", "{", "  ", "- ",
+                 "a", "::", ">>> ", "_", "__", "@", ".. ", "``", "a or ", "of ", "[a, ", "{a: ", "'", "\"", " : ", "(a, ", "~", "`a` "]
+GROWTH_PLACES = [
+    ("numpy", "param-type", "S.\n\nParameters\n----------\nx : %s\n    d\n"),
+    ("numpy", "param-name", "S.\n\nParameters\n----------\n%s : int\n    d\n"),
+    ("numpy", "returns", "S.\n\nReturns\n-------\n%s\n    d\n"),
+    ("numpy", "see-also", "S.\n\nSee Also\n--------\n%s\n"),
+    ("google", "arg-type", "S.\n\nArgs:\n    x (%s): d\n"),
+    ("google", "arg-name", "S.\n\nArgs:\n    x %s: d\n"),
+    ("google", "returns", "S.\n\nReturns:\n    %s: d\n"),
+    ("google", "raises", "S.\n\nRaises:\n    %s: d\n"),
+    ("epytext", "body", "%s"),
+    ("epytext", "type-field", "S.\n\n@type x: %s\n@param x: d\n"),
+    ("restructuredtext", "body", "%s"),
+    ("restructuredtext", "type-field", "S.\n\n:type x: %s\n:param x: d\n"),
+    ("restructuredtext", "param-field", "S.\n\n:param %s x: d\n"),
+    ("plaintext", "body", "%s"),
+    ("epytext", "constant", None),        # X = re.compile('<token>*k') / X = '<token>*k' : the colouriser
+    ("epytext", "annotation-string", None),
+]
+GROWTH_SIZES = (150, 300, 600)
+GROWTH_KNOWN = [("numpy", "param-type", "`a <"), ("google", "arg-type", "`a <"), ("google", "arg-name", "("), ("numpy", "returns", "`a <")]
+
+
+def growth_tree(fmt: str, place: str, token: str, k: int) -> Dict[str, Any]:
+    rep = token * k
+    tpl = next(t for f, p, t in GROWTH_PLACES if f == fmt and p == place)
+    if place == "constant":
+        src = "import re\nX = %r\nY = re.compile(%r)\n" % (rep, rep)
+    elif place == "annotation-string":
+        src = "X: %r = 1\ndef f(a: %r): pass\n" % (rep, rep)
+    else:
+        src = "def f(x):\n    %r\n" % (tpl % rep)
+    return {"files": {"pkg/__init__.py": "'pkg'\n", "pkg/g.py": src}, "kind": "growth", "docformat": fmt, "constructs": 0,
+            "werror": False, "prepend": False, "root": "pkg", "extra_roots": []}
+
+
+def run_growth(case: Tuple[str, str, str]) -> Dict[str, Any]:
+    """worker: the same tree at sizes 0, 0 (warm-up, base line), k, 2k, 4k in ONE process; CPU seconds of driver.main each"""
+    fmt, place, token = case
+    cpu: List[float] = []
+    outs: List[str] = []
+    for k in (0, 0) + GROWTH_SIZES:
+        r = run_tree(growth_tree(fmt, place, token, k))
+        cpu.append(float(r.get("cpu") or 0.0))
+        outs.append(str(r["outcome"]))
+        if not str(r["outcome"]).startswith("exit"):
+            break
+    return {"cpu": cpu, "outcomes": outs, "detail": r.get("detail", ""), "tail": r.get("tail", "")}
+
+
+def judge_growth(ctx: Ctx, case: Tuple[str, str, str], r: Dict[str, Any]) -> None:
+    import math
+    fmt, place, token = case
+    inp = {"growth": list(case), "sizes": list(GROWTH_SIZES), "files": growth_tree(fmt, place, token, GROWTH_SIZES[0])["files"], "docformat": fmt}
+    last = r["outcomes"][-1]
+    if not last.startswith("exit"):
+        if last.startswith("hang"):
+            ctx.fail("hang:%s:%s" % (fmt, place), inp, f"token {token!r} x {GROWTH_SIZES[len(r['outcomes']) - 3] if len(r['outcomes']) > 2 else 0}: the 60 s alarm went off ({last})")
+        elif last.startswith("harness"):
+            ctx.count("harness-trouble")
+        else:
+            ctx.fail(last if not last.startswith("SystemExit") else "aborts:" + last, inp, f"driver.main: {last} {r.get('detail', '')} | {r.get('tail', '')[-200:]}")
+        return
+    base = r["cpu"][1]
+    net = [max(t - base, 0.005) for t in r["cpu"][2:]]
+    expo = math.log2(net[2] / net[1])
+    ctx.count("growth-cases")
+    if net[2] >= 1.0 and expo >= 2.5:
+        # cubic or worse: extrapolated, a docstring of 4*k*8 tokens (some tens of KB) takes net[2] * 512 seconds
+        ctx.fail("hang:superlinear:%s:%s" % (fmt, place), inp,
+                 f"{fmt} docstring, {place}: token {token!r} repeated {GROWTH_SIZES} times costs {net[0]:.2f} / {net[1]:.2f} / {net[2]:.2f} CPU s "
+                 f"(exponent {expo:.1f} for the last doubling): cubic or worse, {GROWTH_SIZES[2] * 4} repeats take minutes")
 
 
 def run_tree(tree: Dict[str, Any]) -> Dict[str, Any]:
@@ -300,10 +528,31 @@ def run_tree(tree: Dict[str, Any]) -> Dict[str, Any]:
     try:
         bad = []
         for rel, src in tree["files"].items():
+            # file NAMES are part of a tree: `rel` may hold surrogate-escaped bytes (a name that is not UTF-8),
+            # newlines, very long components ...; a name the file system refuses is harness trouble, not a verdict
             p = Path(tmp, "src", rel)
             p.parent.mkdir(parents=True, exist_ok=True)
+            if src == "#DIR":
+                # a DIRECTORY where a source file is expected (pkg/sub/__init__.py/): reading it raises
+                # IsADirectoryError — "a file that does not parse", it has to be reported by name
+                p.mkdir()
+                bad.append(rel)
+                continue
+            if src.startswith("#SYMLINK:"):
+                os.symlink(src[9:], p)
+                if not p.is_file():
+                    bad.append(rel)
+                continue
+            mode = None
+            if src.startswith("#MODE000:"):
+                mode, src = 0, src[9:]
             data = bytes.fromhex(src[5:]) if src.startswith("#HEX:") else src.encode("utf-8", errors="surrogatepass")
             p.write_bytes(data)
+            if mode is not None:
+                os.chmod(p, mode)
+                if os.geteuid() != 0:
+                    bad.append(rel)      # unreadable: has to be reported by name (root reads it anyway)
+                    continue
             # "does not parse" as a FILE: a source file is read with a final newline (the interpreter's file
             # reader and pydoctor's parseFile both supply one), so 'backslash newline' alone is an empty module
             def parses(b):
@@ -331,13 +580,16 @@ def run_tree(tree: Dict[str, Any]) -> Dict[str, Any]:
         buf = io.StringIO()
         signal.signal(signal.SIGALRM, _alarm)
         signal.alarm(60)
+        import time as _time
+        t0 = None
         try:
             from pydoctor import driver
+            t0 = _time.process_time()
             with contextlib.redirect_stdout(buf), contextlib.redirect_stderr(buf):
                 code = driver.main(args)
             res["outcome"] = "exit:%s" % code
-        except _Timeout:
-            res["outcome"] = "hang"
+        except _Timeout as e:
+            res["outcome"] = "hang" + (":" + str(e) if str(e) else "")
         except SystemExit as e:
             res["outcome"] = "SystemExit:%s" % e.code
         except RecursionError as e:
@@ -347,10 +599,15 @@ def run_tree(tree: Dict[str, Any]) -> Dict[str, Any]:
             # twisted wraps what went wrong while flattening: classify by the underlying exception
             if type(e).__name__ == "FlattenerError" and e.args and isinstance(e.args[0], BaseException):
                 root = e.args[0]
-            res["outcome"] = "crash:%s:%s" % (type(root).__name__, where(e))
-            res["detail"] = (str(root) or "")[:300]
+            if isinstance(root, _Timeout):      # the alarm went off inside the flattener
+                res["outcome"] = "hang" + (":" + str(root) if str(root) else "")
+            else:
+                res["outcome"] = "crash:%s:%s%s" % (type(root).__name__, where(e), where_root(root) if root is not e else "")
+                res["detail"] = (str(root) or "")[:300]
         finally:
             signal.alarm(0)
+            if t0 is not None:
+                res["cpu"] = _time.process_time() - t0
         text = buf.getvalue()
         res["mentions"] = {rel: (Path(rel).name in text or rel in text) for rel in bad}
         pre = "fake.pack." if tree.get("prepend") else ""
@@ -458,6 +715,21 @@ def where(e: BaseException) -> str:
     return "%s.%s" % (Path(f.filename).stem, f.name)
 
 
+def where_root(root: BaseException) -> str:
+    """for an exception that twisted's flattener wrapped: which pydoctor function it came from — ':file.function' of the
+    innermost pydoctor frame of the ROOT traceback, for a RecursionError the pydoctor function that recurses (the most
+    frequent frame; the innermost one depends on where exactly the limit is hit); '' when no pydoctor frame is in it"""
+    tb = traceback.extract_tb(root.__traceback__)
+    frames = [f for f in tb if "/pydoctor/" in f.filename and "/verif/" not in f.filename]
+    if not frames:
+        return ""
+    if isinstance(root, RecursionError):
+        from collections import Counter
+        (fn, name), _n = Counter((Path(f.filename).stem, f.name) for f in frames).most_common(1)[0]
+        return ":%s.%s" % (fn, name)
+    return ":%s.%s" % (Path(frames[-1].filename).stem, frames[-1].name)
+
+
 def judge(ctx: Ctx, tree: Dict[str, Any], r: Dict[str, Any]) -> None:
     o = r["outcome"]
     inp = {"files": tree["files"], "docformat": tree["docformat"], "werror": tree.get("werror"), "prepend": tree.get("prepend"),
@@ -466,7 +738,7 @@ def judge(ctx: Ctx, tree: Dict[str, Any], r: Dict[str, Any]) -> None:
         ctx.count("harness-trouble")
         ctx.notes.append("harness: " + str(o)[:200]) if len(ctx.notes) < 3 else None
         return
-    if o.startswith("crash") or o == "hang" or o.startswith("SystemExit"):
+    if o.startswith("crash") or o.startswith("hang") or o.startswith("SystemExit"):
         sig = o if not o.startswith("SystemExit") else "aborts:" + o
         if tree["kind"] == "surrogate" and "UnicodeEncodeError" in o and "surrogates not allowed" in r.get("detail", ""):
             sig = "lone-surrogate:" + sig
